@@ -650,3 +650,58 @@ def rule_scratch_conditions(ctx, rule='R05.11'):
                 if len(samples) < 5:
                     samples.append('src/%s:%s %s reads %s' % (cfile, line_of(ifs), fname, sorted(reads)))
     ctx.covered(rule, 'conditions on unpersisted scratch members guard only (re)allocation and scratch state', n, floor=5, samples=samples)
+
+
+def rule_zeroed_particle_arrays(ctx, rule='R05.12'):
+    """R05.12: arrays of struct reb_particle that are persisted (rows of pointer type whose element is a particle) are
+    written to archives and compared member by member. Code that fills such an array member-wise (the coordinate
+    transformations store x, y, z, vx, vy, vz, m) leaves r, last_collision, hash and the pointers as the allocator returned
+    them, so every (re)allocation of such a member is followed, in the same statement list, by a memset of the new memory
+    to zero (or is a calloc). Otherwise archives are not byte-reproducible and a restored simulation continued next to the
+    original compares unequal in bytes nobody computed."""
+    from . import c04
+    recs, rows, dt, inv, sim = rows_and_leaves()
+    targets = set()
+    for r in rows:
+        pm = row_member(sim, inv, r)
+        if pm and re.match(r'^struct reb_particle \*', getattr(pm[1], 'ctype', '') or ''):
+            targets.add('r.' + pm[0])
+    anchor(len(targets) >= 2, 'persisted arrays of struct reb_particle (found %s)' % sorted(targets))
+    n = 0
+    samples = []
+    for cfile, tu in sorted(cfront.load_tus().items()):
+        for fname, fn in sorted(tu.funcs.items()):
+            if cfront.body(fn) is None or cfront.basename(fn.get('_locfile') or fn.get('_file')) != cfile:
+                continue
+            fn = tu.func(fname)
+            for comp in walk(cfront.body(fn)):
+                if comp.get('kind') != 'CompoundStmt':
+                    continue
+                items = comp.get('inner', [])
+                for i, st in enumerate(items):
+                    e = strip(st)
+                    if not (is_assign(e) and e['opcode'] == '='):
+                        continue
+                    rhs = strip(e['inner'][1], casts=True)
+                    if not (rhs.get('kind') == 'CallExpr' and callee_name(rhs) in ('realloc', 'malloc', 'aligned_alloc')):
+                        continue
+                    path = c04._access_path(e['inner'][0])
+                    if path not in targets:
+                        continue
+                    n += 1
+                    zeroed = False
+                    for later in items[i + 1:]:
+                        for x in walk(later):
+                            if x.get('kind') == 'CallExpr' and callee_name(x) == 'memset' and call_args(x):
+                                a0 = call_args(x)[0]
+                                if any(c04._access_path(y) == path for y in walk(a0)) and render(call_args(x)[1]).strip() == '0':
+                                    zeroed = True
+                    where = 'src/%s:%s %s' % (cfile, line_of(e), fname)
+                    if not zeroed:
+                        ctx.report(rule, '%s:%s' % (fname, path), where,
+                                   '%s is (re)allocated with %s and not set to zero afterwards: the array is persisted and compared as whole particles, but it is filled member by member - radius, last_collision, hash and the pointer members keep the allocator\'s bytes (archives differ from run to run; a restored simulation continued next to the original compares unequal)'
+                                   % (path, callee_name(rhs)))
+                    else:
+                        samples.append('%s: %s zeroed after %s' % (where, path, callee_name(rhs)))
+    anchor(n >= 2, 'allocation sites of the persisted particle arrays (found %d)' % n)
+    ctx.covered(rule, 'persisted particle arrays are zero-initialised where they are (re)allocated', n, floor=2, samples=samples)
